@@ -187,18 +187,20 @@ def g_sfb1d(mode, dim, short=False, canary=False):
 # ---------------------------------------------------------------------------
 # filter preparation, mode tables
 # ---------------------------------------------------------------------------
-def g_prep(which, nf=2):
+def g_prep(which, nf=2, layout='1d'):
     names = {'prep_filt_afb1d': CD.prep_filt_afb1d_contract, 'prep_filt_sfb1d': CD.prep_filt_sfb1d_contract,
              'prep_filt_afb2d': CD.prep_filt_afb2d_contract, 'prep_filt_sfb2d': CD.prep_filt_sfb2d_contract}
     callee = {k: CD.CONTRACTS[k] for k in ('dwt.lowlevel:prep_filt_afb1d', 'dwt.lowlevel:prep_filt_sfb1d')} \
         if which.endswith('2d') else {}
 
+    mkf = CD.np1d if layout == '1d' else CD.npcol          # filters as 1-D arrays / lists, or as (L, 1) column arrays
+
     def mk():
-        a = [CD.np1d('f0', L), CD.np1d('f1', L)]
+        a = [mkf('f0', L), mkf('f1', L)]
         if nf == 4:
-            a += [CD.np1d('f2', Lr), CD.np1d('f3', Lr)]
+            a += [mkf('f2', Lr), mkf('f3', Lr)]
         return a, {}
-    return verify.verify_function('%s[%d filters]' % (which, nf), 'dwt.lowlevel', which, mk, BASE + [Lr2 >= 1],
+    return verify.verify_function('%s[%d filters%s]' % (which, nf, '' if layout == '1d' else ',(L,1) column arrays'), 'dwt.lowlevel', which, mk, BASE + [Lr2 >= 1],
                                   names[which], callee, SIZES + [Lr2], check_linear=False)
 
 
